@@ -336,6 +336,18 @@ class SeqRun(seq_hooks.HooksMixin, object):
         """Pony object for a model object, fetched by primary key when not yet held in this session."""
         h = self.handles.get(mid)
         if h is not None:
+            mo = self.view.objs.get(mid)
+            if mo is not None and type(h).__name__ != mo.ent and h._status_ not in ('created', 'deleted', 'cancelled',
+                                                                                  'marked_to_delete'):
+                # single-table inheritance: an object first met as a bare reference has the class of the attribute
+                # that refers to it until its row is loaded; a program reaches the subclass attributes (or assigns
+                # them) only through the refined object, so load it (an assignment of `gpa` to an unrefined Person
+                # is a plain Python attribute of that object, not a write)
+                try:
+                    h.load()
+                    self.probe('seed_refined_before_use')
+                except Exception:
+                    pass
             return h
         mo = self.view.objs[mid]
         P = self.E[mo.ent]
